@@ -6,7 +6,7 @@ pure-python __eq__ ladders. Everything is derived by bit-provenance interpretati
 import ast
 import re
 from .core import AnalysisError
-from .astutil import src
+from .astutil import src, attrs_read_of, strip_doc as strip_doc_
 from .bits import analyse_encoders, bits_of, word_of, charge_bounds, ISO
 from .tables import ElementTable, compile_valence_rules, pyx_source, strip_comments
 
@@ -383,7 +383,7 @@ def run_matcher_rules(ck, repo, thorough=False):
                         ('AnyMetal', {'isotope', 'charge', 'is_radical', 'implicit_hydrogens', 'heteroatoms', 'ring_sizes'})):
         f = q.classes[cname].method('__eq__')
         ck.require(f is not None, f'{cname}.__eq__ vanished')
-        used = {n.attr for n in ast.walk(f.node) if isinstance(n, ast.Attribute) and isinstance(n.value, ast.Name) and n.value.id == 'other'}
+        used = attrs_read_of(f.node, 'other', q.tree)  # incl. reads inside extracted same-module helpers that receive `other`
         used.discard('is_forming_single_bonds')
         want = enc_fields - drop
         if cname == 'AnyMetal':
@@ -401,9 +401,41 @@ def run_matcher_rules(ck, repo, thorough=False):
     ck.rule(R, '_cython=False and the ImportError fallback both hand components=None, get_mapping=None to the shared driver; '
                'the compiled path hands the compiled query and a wrapper around the compiled structure')
     gm = repo.func(f'{ISO}:QueryIsomorphism.get_mapping')
-    nones = [n for n in ast.walk(gm.node) if isinstance(n, ast.Assign) and src(n.value) == 'None' and
-             {src(t) for t in n.targets} == {'components', 'get_mapping'}]
-    ck.decide(len(nones) == 2, R, 'fallbacks', len(nones), 'the two fallbacks (ImportError, _cython=False) no longer both reset components and get_mapping', file=gm.file, line=gm.lineno)
+    # both fallbacks (ImportError, _cython=False) reach the driver with components = get_mapping = None: either one dominating reset before
+    # `if _cython:` or a reset in the else branch and in the ImportError handler; the only non-None bindings sit inside the guarded import
+    parents_ = {}
+    for p_ in ast.walk(gm.node):
+        for ch in ast.iter_child_nodes(p_):
+            parents_[ch] = p_
+
+    def chain(n):
+        out = []
+        while n in parents_:
+            out.append(parents_[n])
+            n = parents_[n]
+        return out
+    cy_ifs = [n for n in ast.walk(gm.node) if isinstance(n, ast.If) and src(n.test) == '_cython']
+    resets = {'components': [], 'get_mapping': []}
+    binds = {'components': [], 'get_mapping': []}
+    for n in ast.walk(gm.node):
+        if isinstance(n, ast.Assign):
+            for t in n.targets:
+                if isinstance(t, ast.Name) and t.id in resets:
+                    (resets if src(n.value) == 'None' else binds)[t.id].append(n)
+        elif isinstance(n, ast.FunctionDef) and n.name in binds and n is not gm.node:
+            binds[n.name].append(n)
+    ok_fb = len(cy_ifs) == 1
+    if ok_fb:
+        ci = cy_ifs[0]
+        top = strip_doc_(gm.node.body)
+        for name in resets:
+            dominating = any(r in top and top.index(r) < top.index(ci) for r in resets[name] if ci in top)
+            in_else = any(any(r is x or r in list(ast.walk(x)) for x in ci.orelse) for r in resets[name])
+            in_handler = any(any(isinstance(c, ast.ExceptHandler) and c.type is not None and 'ImportError' in src(c.type) for c in chain(r)) for r in resets[name])
+            guarded = all(ci in chain(b) and any(isinstance(c, ast.Try) for c in chain(b)) for b in binds[name]) and bool(binds[name])
+            ok_fb = ok_fb and guarded and (dominating or (in_else and in_handler))
+    ck.decide(ok_fb, R, 'fallbacks', {k: len(v) for k, v in resets.items()},
+              'the two fallbacks (ImportError, _cython=False) no longer both reach the shared driver with components = get_mapping = None', file=gm.file, line=gm.lineno)
     tr = [n for n in ast.walk(gm.node) if isinstance(n, ast.Try)]
     ck.decide(len(tr) == 1 and any(src(h.type) == 'ImportError' for h in tr[0].handlers), R, 'import-guard', None, 'the compiled import is no longer guarded by except ImportError', file=gm.file)
     call = [n for n in ast.walk(gm.node) if isinstance(n, ast.Call) and src(n.func) == 'self._get_mapping']
